@@ -282,15 +282,13 @@ def getaxes_broadcast(obj, indices):
         # ...if originally only one array was provided, use these values correspondingly
         if len(array_ix_pos) == 1:
             i = array_ix_pos[0]
-            values = obj.axes[i].values[indices[i]]
-            name = obj.axes[i].name
+            broadcastaxis = obj.axes[i][indices[i]] # (the indexed axis keeps its metadata)
 
         # ...else use a list of tuples
         else:
             values = list(zip(*[obj.axes[i].values[indices2[i]] for i in array_ix_pos]))
             name = ",".join([obj.axes[i].name for i in array_ix_pos])
-
-        broadcastaxis = Axis(values, name)
+            broadcastaxis = Axis(values, name)
 
         newaxes = Axes()
         for i, ax in enumerate(obj.axes):
